@@ -121,6 +121,8 @@ const (
 	InitValid = iota
 	InitWrongParts
 	InitNegative
+	InitAppRefuses // well-formed allocation, data the app refuses (not applicable to the payment app, which documents a panic)
+	numInit
 )
 
 // Update / ForceUpdate classes.
@@ -130,6 +132,7 @@ const (
 	UpdVersionPlus2
 	UpdSumPlus1
 	UpdValidByPeer // valid successor whose actor is another participant
+	UpdAppRefuses  // otherwise valid successor with data the (data) app refuses; other apps: as UpdSumPlus1
 	numUpd
 )
 
@@ -146,8 +149,8 @@ const (
 )
 
 var (
-	initClassNames = []string{"valid", "wrong-parts", "negative"}
-	updClassNames  = []string{"valid", "valid-final", "version+2", "sum+1", "valid-by-peer"}
+	initClassNames = []string{"valid", "wrong-parts", "negative", "app-refuses"}
+	updClassNames  = []string{"valid", "valid-final", "version+2", "sum+1", "valid-by-peer", "app-refuses"}
 	sigClassNames  = []string{"valid", "bitflip", "foreign", "replay", "short", "empty", "nil"}
 )
 
@@ -173,7 +176,7 @@ func (o Op) String() string {
 // Alphabet returns the complete list of operation instances for n participants.
 func Alphabet(n int) []Op {
 	var ops []Op
-	for c := 0; c < 3; c++ {
+	for c := 0; c < numInit; c++ {
 		ops = append(ops, Op{Kind: OpInit, Class: c})
 	}
 	for c := 0; c < numUpd; c++ {
@@ -322,6 +325,12 @@ func (e *Exec) successor(base *channel.State, class int) (*channel.State, channe
 		s.Version = base.Version + 2
 	case UpdSumPlus1:
 		s.Balances[0][0] = new(big.Int).Add(s.Balances[0][0], big.NewInt(1))
+	case UpdAppRefuses:
+		if e.W.App == gen.AppData {
+			s.Data = &gen.BytesData{B: append(append([]byte(nil), gen.RefusedMarker...), byte(e.counter))}
+		} else {
+			s.Balances[0][0] = new(big.Int).Add(s.Balances[0][0], big.NewInt(1))
+		}
 	}
 	return s, actor
 }
@@ -363,9 +372,21 @@ func (e *Exec) Apply(op Op) *Step {
 			alloc.Balances[0][0] = big.NewInt(-1)
 		}
 		v, why := refmodel.ValidInit(e.W.Params, &alloc)
+		data := e.W.Data.Clone()
+		if op.Class == InitAppRefuses {
+			switch e.W.App {
+			case gen.AppData:
+				data = &gen.BytesData{B: append(append([]byte(nil), gen.RefusedMarker...), 7)}
+			case gen.AppNone:
+				data = &gen.BytesData{B: []byte{7}}
+			default:
+				st.Applicable = false
+				return st
+			}
+			v, why = refmodel.Refuse, "the app refuses the initial data"
+		}
 		st.WantVerdict, st.WantReason = v, why
 		st.WantOK = m.Phase == channel.InitActing && v == refmodel.Accept
-		data := e.W.Data.Clone()
 		st.ArgState = &channel.State{Allocation: alloc, Data: data}
 		call = func() error { return e.D.Init(alloc, data) }
 		if st.WantOK {
